@@ -46,6 +46,11 @@ def programs(rnd, n_deep):
         for op in ("+", "-", "*", "%", "|", "&"):
             out.append({"k": "ad", "adv": adv, "op": op, "a": a})
             out.append({"k": "ad", "adv": adv, "op": op, "a": b})
+    # reductions and scans whose operand is NOT a plain variable (the verb's own shortcut runs, not the expression compiler's)
+    for adv in ("over", "scan"):
+        for op in ("+", "-", "*", "%", "|", "&"):
+            out.append({"k": "ad", "adv": adv, "op": op, "a": {"k": "mo", "op": "|", "a": a}})
+            out.append({"k": "ad", "adv": adv, "op": op, "a": {"k": "dy", "op": "#", "a": lit(I(2)), "b": a}})
     for op, n in (("#", 2), ("#", -2), ("_", 1), ("_", -1), ("@", 1), ("@", 0), (":+", 1)):
         out.append({"k": "dy", "op": op, "a": lit(I(n)), "b": a} if op != "@" else {"k": "dy", "op": "@", "a": a, "b": lit(I(n))})
     out.append({"k": "dy", "op": ",", "a": a, "b": b})
